@@ -10,6 +10,7 @@ package srvframe
 import (
 	"bytes"
 	"fmt"
+	"io"
 	"reflect"
 	"runtime"
 	"strings"
@@ -117,13 +118,13 @@ type Expect struct {
 type Cmd struct {
 	Tag         string
 	Kind        int
-	Name        string  // template and variant, for samples
-	Class       string  // anomaly class of this command, used in violation keys ("" = ordinary)
-	Chunks      []Chunk // first line (KAuth/KIdle) or whole command (KPlain)
-	Cont        string  `json:",omitempty"` // KAuth/KIdle: second line including CRLF
-	IdleUpdates int     `json:",omitempty"` // updates the backend writes while idling
+	Name        string   // template and variant, for samples
+	Class       string   // anomaly class of this command, used in violation keys ("" = ordinary)
+	Chunks      []Chunk  // first line (KAuth/KIdle) or whole command (KPlain)
+	Cont        string   `json:",omitempty"` // KAuth/KIdle: second line including CRLF
+	IdleUpdates int      `json:",omitempty"` // updates the backend writes while idling
 	Junk        []string `json:",omitempty"` // markers in non-literal junk: must never show up anywhere
-	Benign      *Expect `json:",omitempty"`
+	Benign      *Expect  `json:",omitempty"`
 }
 
 const (
@@ -233,7 +234,25 @@ func (s *Sess) Idle(w *imapserver.UpdateWriter, stop <-chan struct{}) error {
 	return werr
 }
 
+// Mailbox names that select a backend answer to APPEND other than "read everything, accept".
+const (
+	MboxRefuseUnread = "refuse0"
+	MboxRefusePartly = "refuse3"
+	MboxLazy         = "lazy2"
+)
+
 func (s *Sess) Append(mailbox string, r imap.LiteralReader, o *imap.AppendOptions) (*imap.AppendData, error) {
+	switch mailbox {
+	case MboxRefuseUnread, MboxRefusePartly, MboxLazy:
+		want := map[string]int{MboxRefuseUnread: 0, MboxRefusePartly: 3, MboxLazy: 2}[mailbox]
+		buf := make([]byte, want)
+		n, _ := io.ReadFull(r, buf)
+		s.Stub.Record("Append", mailbox, r.Size(), *o, string(buf[:n]), "backend stops reading here")
+		if mailbox == MboxLazy {
+			return &imap.AppendData{UID: 7, UIDValidity: 1}, nil
+		}
+		return nil, &imap.Error{Type: imap.StatusResponseTypeNo, Code: imap.ResponseCodeTryCreate, Text: "no such mailbox"}
+	}
 	if r.Size() <= 1<<20 {
 		return s.Stub.Append(mailbox, r, o)
 	}
@@ -462,7 +481,7 @@ func (c *Conn) Send(b []byte) []byte {
 type End struct {
 	Hang        string // a wait hit the watchdog: what was being waited for
 	EngineErr   string
-	CloseCount  int    // Session.Close calls (-1: no session was created)
+	CloseCount  int // Session.Close calls (-1: no session was created)
 	IdleStarted int
 	IdleDone    int
 	ConnsLeft   int
